@@ -445,6 +445,9 @@ func (r *Registry) TypeInv(term string, t types.Type, depth int) []string {
 		}
 	case *types.Struct:
 		si := r.StructInfoOf(t)
+		if si == nil {
+			break // sync.* and similar opaque structs
+		}
 		for _, f := range si.Fields {
 			out = append(out, r.TypeInv(fmt.Sprintf("(%s %s)", f.Acc, term), f.T, depth+1)...)
 		}
